@@ -52,7 +52,7 @@ def judge(ck, g, sc, r):
             g.add("raw commit-key point with an unreduced coordinate (limbs + p) is accepted", KEY_UNRED, ex)
         else:
             g.add("decoder outcome %s differs from the model's %s (%s)" % (r["res"], pred, sc.get("why")),
-                  {"site": sc["m"], "class": "pred-%s-obs-%s" % (pred, obs), "toks": case_key(sc)}, ex)
+                  {"site": sc["m"], "class": "pred-%s-obs-%s" % (pred, obs), "classes": sorted(set(t[1] for t in muts(sc)))}, ex)
     # accepted => well-formed, usable
     if obs == "ok":
         bad = [f for f in r.get("nwf", [])]
@@ -61,7 +61,7 @@ def judge(ck, g, sc, r):
                 g.add("accepted commit key contains an unreduced field element", KEY_UNRED, ex)
             else:
                 g.add("accepted data is not well-formed: %s" % bad[:4],
-                      {"site": sc["m"], "class": "accepted-malformed", "fields": bad[:4]}, ex)
+                      {"site": sc["m"], "class": "accepted-malformed", "kinds": sorted(set(f.split(":")[-1] for f in bad))}, ex)
         smoke = r.get("smoke", {})
         for k, v in smoke.items():
             if isinstance(v, str) and v.startswith("panic"):
@@ -136,9 +136,40 @@ def run(tier):
     if seen != len(allsc) and not aborted:
         raise vlib.ToolError("replayed %d of %d scenarios" % (seen, len(allsc)))
     ck.traces += seen
+    n_f1 = sum(1 for r in recs if "id" in r and r.get("res") == "ok"
+               and any(t[1] == "flag1xy" for t in byid[r["id"]]["toks"]))
+    if n_f1:
+        ck.notes.append("%d accepted inputs carry a raw point with flag = 1 and non-zero coordinates: the model "
+                        "classes it as the identity (the raw format has no canonical identity); a probe shows the "
+                        "decoded prover behaves exactly as with the canonical identity bytes" % n_f1)
     ck.extra["decoder_outcomes(pred/observed)"] = outcomes
     ck.extra["peak_allocation"] = peaks
     ck.extra["alloc_bound"] = "peak <= %d*len + %d (constant = two G2Prepared of an opening key)" % (ALLOC_K, ALLOC_C)
+
+    # 3b. thorough: the single-field inputs again on a larger object of the same
+    # shape (size 64): same predictions, allocation ratio at a meaningful size
+    if thorough:
+        big = [s for s in scen if len(muts(s)) <= 1]
+        pb = os.path.join(d, "scenarios-big.ndjson")
+        vlib.write_ndjson(pb, big)
+        brecs, baborted = harness_lines(["replay", "--extra-rows", "50"], stdin=open(pb).read(), timeout=2400)
+        if baborted:
+            g.add("decoder aborted the process on the size-64 object", {"site": "?", "class": "alloc-abort"}, {"abort": baborted})
+        nb = 0
+        bpk = {}
+        for r in brecs:
+            if "id" not in r:
+                continue
+            sc = byid[r["id"]]
+            if "error" in r:
+                raise vlib.ToolError("concretiser refused scenario %s on the large base: %s" % (case_key(sc), r["error"]))
+            nb += 1
+            judge(ck, g, sc, r)
+            ck.case("n64:" + case_key(sc))
+            if r["len"] >= 4096:
+                bpk[sc["m"]] = max(bpk.get(sc["m"], 0.0), round(r["peak"] / r["len"], 2))
+        ck.traces += nb
+        ck.extra["size64_replay"] = {"cases": nb, "max_peak_over_len": bpk}
 
     # 4. hostile compressed circuits (never panic, bounded allocation)
     hrecs, haborted = harness_lines(["hostile", "--tier", tier], timeout=2400)
@@ -150,9 +181,9 @@ def run(tier):
     if not ref or ref[0]["res"] != "ok":
         raise vlib.ToolError("the library's own compressed circuit does not compile")
     cap = ref[0]["cap_bytes"]
-    # reference: peak of compiling the valid description; the parameters bound
-    # every accepted circuit to the same domain size class
-    bound = 4 * ref[0]["peak"] + 64 * cap + ALLOC_C
+    # reference: peak allocation of compiling a circuit that fills the
+    # parameters' capacity (what any accepted description may legitimately cost)
+    bound = 2 * ref[0]["cap_peak"] + ALLOC_C
     hout = {}
     for r in hs:
         ck.case("compressed:" + r["id"])
@@ -171,7 +202,8 @@ def run(tier):
                       {"site": "compile_with_compressed", "class": "smoke-panic"}, ex)
     ck.traces += len(hs)
     ck.extra["hostile_compressed"] = {"cases": len(hs), "outcomes": hout,
-                                      "max_peak": max(r["peak"] for r in hs), "bound": bound}
+                                      "max_peak": max(r["peak"] for r in hs), "bound": bound,
+                                      "capacity_bytes": cap, "capacity_compile_peak": ref[0]["cap_peak"]}
 
     g.flush()
     ck.assumptions += [
